@@ -39,7 +39,7 @@ def contracts():
     ensures match r { Ok(x) => json_spec::<T>(self.body@) == Some(x), Err(_) => json_spec::<T>(self.body@) is None },
 """)
     c["from_response"] = FnSpec(ret="r", sig="""
-    ensures r matches Ok(v) ==> v.body@ == response.body@ && v.headers == response.hdrs, //@C02.body_is_response_body
+    ensures r matches Ok(v) ==> v.body@ == response.body@ && v.headers == response.hdrs, //@C02.body_is_response_body,C03.body_is_response_body
 """)
     c["get_header"] = FnSpec(ret="r", sig="""
     ensures
@@ -53,13 +53,13 @@ def contracts():
     c["update_nonce"] = FnSpec(ret="r", sig="""
     ensures
         // the stored nonce becomes the response's nonce whenever it carries a well-formed one, and is kept otherwise
-        r is Ok ==> nonce_view(final(endpoint).nonce) == (match response.valid_nonce() { Some(n) => Some(n), None => nonce_view(old(endpoint).nonce) }), //@C04.nonce_refreshed_from_every_response
+        r is Ok ==> nonce_view(final(endpoint).nonce) == (match response.valid_nonce() { Some(n) => Some(n), None => nonce_view(old(endpoint).nonce) }), //@C04.nonce_refreshed_from_every_response,C08.nonce_refreshed_from_every_response
         r is Err ==> final(endpoint).nonce == old(endpoint).nonce && response.valid_nonce() is None, //@C04.nonce_kept_on_error
         final(endpoint).rl == old(endpoint).rl, final(endpoint).root_certificates == old(endpoint).root_certificates,
         final(endpoint).dir == old(endpoint).dir, final(endpoint).url == old(endpoint).url, final(endpoint).name == old(endpoint).name,
 """)
     c["check_status"] = FnSpec(ret="r", sig="""
-    ensures r is Ok <==> response.success@, //@C08.status_check
+    ensures r is Ok <==> response.success@, //@C08.status_check,C03.status_check,C02.status_check
 """)
     c["rate_limit"] = FnSpec(ghost=True, sig="""
     requires old(endpoint).rl.inv(*old(w)),
@@ -100,13 +100,17 @@ def contracts():
 """)
     c["new_nonce"] = FnSpec(ret="r", ghost=True, sig="    requires" + NET_PRE + "    ensures" + NET_POST + """
         final(w).net.posts == old(w).net.posts, final(w).net.waited == old(w).net.waited,
-""")
+""", at=[("before_stmt_re", r"\bget\(endpoint,", 1, """
+    proof {
+        // a fresh nonce is asked of the server's newNonce resource (RFC 8555 section 7.2), not of whatever URL answers
+        assert(url@ == endpoint.dir.new_nonce@); //@C04.a_nonce_is_fetched_from_the_new_nonce_resource
+    }""")])
     # (url_given__: the URL text the caller gave - a local of the same name may shadow the parameter further down)
     c["post"] = FnSpec(ret="r", ghost=True, body_start="let ghost url_given__: &str = url;", sig="    requires" + NET_PRE + DB_PRE + "    ensures" + NET_POST + """
         final(w).net.posts <= old(w).net.posts + 10, //@C08.at_most_10_transmissions,C07.every_request_is_given_up_after_a_bounded_number_of_transmissions
         final(w).net.waited <= old(w).net.waited + POST_WAIT_NS(), //@C07.the_waits_between_transmissions_are_bounded
         r is Ok ==> final(w).net.last_success && final(w).net.posts > old(w).net.posts, //@C08.ok_is_2xx
-        r matches Ok(v) ==> v.body@ == final(w).net.last_body, //@C02.body_is_response_body
+        r matches Ok(v) ==> v.body@ == final(w).net.last_body, //@C02.body_is_response_body,C03.body_is_response_body
 """, loops={1: "    invariant" + LOOP_NET_INV + DB_PRE + """
         roots_match(client.roots@, w.net.trust_roots), !client.insecure@,
         old(w).net.posts <= w.net.posts,
@@ -146,6 +150,8 @@ def contracts():
         forall|o| break_fn.requires((o,)),
         crate::DEFAULT_POOL_NB_TRIES == 20, //@C08.poll_constant_is_20
         w.net.posts <= old(w).net.posts + $ROUND * 10, //@C08.one_request_per_poll,C07.every_poll_is_given_up_after_a_bounded_number_of_requests
+        // another poll follows only a poll that was answered with the object (not yet in the awaited state): an error answer ends the polling
+        $ROUND > 0 ==> w.net.last_success, //@C08.an_error_answer_to_a_poll_ends_the_polling
         w.net.waited <= old(w).net.waited + $ROUND * (POOL_WAIT_NS() + POST_WAIT_NS()), //@C07.polling_ends_in_bounded_time
 """}
     pool_at = [("loop_start", None, 1, """
